@@ -119,7 +119,12 @@ class C17(Prop):
             "reason_kind": None, "reason_seen": False, "consumer": None, "in_recv": False,
             "handed": False, "cid": 0, "final_done": False, "harness_cancel": set(),
         }
-        given = GivenError("given")
+        cause = GivenError("cause of the given error")
+        try:
+            raise GivenError("given") from cause  # a reason captured from a real raise: it has a traceback and a cause
+        except GivenError as caught:
+            given = caught
+        given_tb = given.__traceback__
         holder = {}
 
         def check_reason(exc, where):
@@ -130,6 +135,16 @@ class C17(Prop):
                 sim.fail("wrong-reason", f"finished normally but receive raised {exc!r} ({where})", kind=kind)
             if kind == "error" and exc is not given:
                 sim.fail("wrong-reason", f"finished with the given error but receive raised {exc!r} ({where})", kind=kind)
+            if kind == "error":
+                tb, kept = given.__traceback__, False
+                while tb is not None:
+                    if tb is given_tb or tb.tb_frame is given_tb.tb_frame:
+                        kept = True  # the traceback it was given with is still part of the chain (re-raising only adds entries)
+                        break
+                    tb = tb.tb_next
+                if given.__cause__ is not cause or not kept:
+                    sim.fail("reason-damaged", f"the given finish reason came out of the receive without its "
+                             f"{'cause' if given.__cause__ is not cause else 'original traceback'} ({where})")
             if kind == "cancel" and not isinstance(exc, asyncio.CancelledError):
                 sim.fail("wrong-reason", f"queue cancelled but receive raised {exc!r} ({where})", kind=kind)
             if len(st["received"]) != len(st["accepted"]):
